@@ -7,85 +7,87 @@ From SQLair.Model Require Import Iter.
 (* ------------------------------------------------ environment: rows -- *)
 
 (* the driver's Rows.Close has been called exactly once iff the rows are
-   closed; an error is only recorded in rows that are closed *)
+   closed; an error, a cancellation or hitEOF is only recorded in rows that
+   are closed *)
 Definition wf_rows (r : rows) : Prop :=
   r_driver_closes r = (if r_closed r then 1 else 0) /\
-  (forall x, r_lasterr r = Some x -> r_closed r = true).
+  (forall x, r_lasterr r = Some (LErr x) -> r_closed r = true) /\
+  (r_ctxdone r = true -> r_closed r = true) /\
+  (r_hiteof r = true -> r_closed r = true).
 
 Definition fresh_rows (r : rows) : Prop :=
-  r_closed r = false /\ r_lasterr r = None /\ r_hit_eof r = false /\ r_current r = None /\
-  r_driver_closes r = 0.
+  r_closed r = false /\ r_lasterr r = None /\ r_hiteof r = false /\ r_ctxdone r = false /\
+  r_current r = None /\ r_driver_closes r = 0.
 
 Lemma fresh_wf r : fresh_rows r -> wf_rows r.
 Proof.
-  intros [C [L [_ [_ D]]]]. split; [rewrite C, D; reflexivity|]. intros x H. congruence.
+  intros [C [L [E [X [_ D]]]]]. unfold wf_rows. rewrite C, D, L, E, X.
+  repeat split; intros; congruence.
 Qed.
 
-Ltac break_match :=
-  repeat match goal with
-         | |- context [match ?x with _ => _ end] => destruct x eqn:?
-         | H : context [match ?x with _ => _ end] |- _ => destruct x eqn:?
-         end.
-
-Ltac rows_crush :=
-  unfold wf_rows, rows_close, rows_close_with, rows_with in *; simpl in *;
-  break_match; simpl in *; subst;
-  repeat split; intros; subst; simpl in *;
-  try congruence; try lia; try (intuition congruence).
+(* the error the rows have recorded, as Rows.Err reports it *)
+Definition recorded (r : rows) (x : err) : Prop := r_closed r = true /\ rows_err r = Some x.
 
 Lemma rows_close_with_spec r e r' ce :
   wf_rows r -> rows_close_with r e = (r', ce) ->
   r_closed r' = true /\ wf_rows r' /\
-  (forall x, r_lasterr r = Some x -> r_lasterr r' = Some x) /\
   (r_closed r = true -> r' = r /\ ce = None) /\
-  (r_closed r = false -> e <> None -> r_hit_eof r = false -> r_lasterr r' <> None) /\
-  (r_closed r = false -> forall n, r_close_err r = Some n -> r_lasterr r' <> None).
+  r_more r' = r_more r /\ r_hiteof r' = r_hiteof r /\ r_ctxdone r' = r_ctxdone r.
 Proof.
-  intros [W1 W2] H. unfold rows_close_with in H. destruct (r_closed r) eqn:C.
-  - inversion H; subst. unfold wf_rows. rewrite C. repeat split; auto; intros; congruence.
+  intros [W1 [W2 [W3 W4]]] H. unfold rows_close_with in H. destruct (r_closed r) eqn:C.
+  - inversion H; subst. unfold wf_rows. rewrite C. repeat split; auto.
   - inversion H; subst; clear H. unfold wf_rows, rows_with. simpl.
-    assert (L : r_lasterr r = None).
-    { destruct (r_lasterr r) eqn:L; [|reflexivity]. specialize (W2 e0 eq_refl). congruence. }
-    rewrite L. repeat split; auto; try lia; try congruence.
-    + intros _ En Eof. rewrite Eof. destruct e; [discriminate|congruence].
-    + intros _ n Hn. rewrite Hn. destruct (r_hit_eof r); destruct e; simpl; discriminate.
+    repeat split; auto; try lia; intros; try congruence.
 Qed.
+
+(* the rows will not deliver anything any more: closed, or at the end of a
+   result set that the driver says is followed by another one *)
+Definition at_eof (r : rows) : Prop :=
+  r_closed r = false /\ r_more r = true /\ r_pending r = [] /\ r_lasterr r = Some LEOF /\
+  (forall e, r_fail r <> Some (0, e)).
+Definition finished_rows (r : rows) : Prop := r_closed r = true \/ at_eof r.
 
 Lemma rows_next_spec r r' b :
   wf_rows r -> rows_next r = (r', b) ->
   wf_rows r' /\
-  (b = false -> r_closed r' = true) /\
+  (b = false -> finished_rows r') /\
+  (finished_rows r -> b = false /\ finished_rows r') /\
   (r_closed r = true -> r' = r /\ b = false) /\
-  (forall x, r_lasterr r = Some x -> r_lasterr r' = Some x).
+  r_more r' = r_more r.
 Proof.
-  intros W H. unfold rows_next in H. destruct (r_closed r) eqn:C.
-  - inversion H; subst. repeat split; auto; apply W.
-  - assert (L : r_lasterr r = None).
-    { destruct W as [_ W2]. destruct (r_lasterr r) eqn:L; [|reflexivity].
-      specialize (W2 e eq_refl). congruence. }
-    destruct W as [W1 W2]. rewrite C in W1.
-    destruct (r_fail r) as [[[|k] e]|] eqn:F.
-    + inversion H; subst; clear H. unfold rows_close, rows_close_with, rows_with, wf_rows. simpl.
-      rewrite W1. repeat split; auto; intros; try congruence.
-    + destruct (r_pending r) as [|x rest] eqn:P; inversion H; subst; clear H;
-        unfold rows_close, rows_close_with, rows_with, wf_rows; simpl; rewrite ?W1, ?L;
-        repeat split; auto; intros; try congruence.
-    + destruct (r_pending r) as [|x rest] eqn:P; inversion H; subst; clear H;
-        unfold rows_close, rows_close_with, rows_with, wf_rows; simpl; rewrite ?W1, ?L;
-        repeat split; auto; intros; try congruence.
+  intros W H. unfold rows_next in H.
+  destruct (r_ctxdone r) eqn:X.
+  { inversion H; subst. destruct W as [W1 [W2 [W3 W4]]]. pose proof (W3 X) as C.
+    unfold finished_rows. repeat split; auto. }
+  destruct (r_closed r) eqn:C.
+  { inversion H; subst. unfold finished_rows. repeat split; auto; apply W. }
+  destruct W as [W1 [W2 [W3 W4]]]. rewrite C in W1.
+  assert (He : r_hiteof r = false) by (destruct (r_hiteof r) eqn:E; [specialize (W4 eq_refl); congruence|reflexivity]).
+  assert (Fin : forall e, r_fail r = Some (0, e) -> ~ finished_rows r).
+  { intros e F [K|[_ [_ [_ [_ K]]]]]; [congruence|]. apply (K e F). }
+  destruct (r_fail r) as [[[|k] e]|] eqn:F;
+    [|destruct (r_pending r) as [|x rest] eqn:P; [destruct (r_more r) eqn:M|]
+     |destruct (r_pending r) as [|x rest] eqn:P; [destruct (r_more r) eqn:M|]];
+    inversion H; subst; clear H;
+    unfold set_hiteof, rows_close, rows_close_with, rows_with, wf_rows, finished_rows, at_eof; simpl;
+    rewrite ?W1, ?X, ?He, ?M; simpl;
+    try (intuition (try congruence; try discriminate; eauto); fail).
+  all: try (intuition (try congruence; try discriminate; eauto);
+            try (right; repeat split; auto; intros; discriminate); fail).
 Qed.
 
 Lemma rows_cancel_spec r :
   wf_rows r ->
   wf_rows (rows_cancel r) /\ r_closed (rows_cancel r) = true /\
   (r_closed r = true -> rows_cancel r = r) /\
-  (forall x, r_lasterr r = Some x -> r_lasterr (rows_cancel r) = Some x) /\
-  (r_closed r = false -> r_hit_eof r = false -> r_lasterr (rows_cancel r) <> None).
+  (r_closed r = false -> rows_err (rows_cancel r) = Some ErrCtx).
 Proof.
-  intros W. unfold rows_cancel. destruct (rows_close_with r (Some ErrCtx)) as [r' ce] eqn:E.
-  destruct (rows_close_with_spec _ _ _ _ W E) as [A [B [L [K [M _]]]]]. simpl.
-  split; [exact B|]. split; [exact A|]. split; [intros C; apply K; exact C|].
-  split; [exact L|]. intros C Eof. apply M; auto. discriminate.
+  intros W. unfold rows_cancel. destruct (r_closed r) eqn:C.
+  - repeat split; auto; try congruence; apply W.
+  - destruct W as [W1 [W2 [W3 W4]]]. rewrite C in W1.
+    assert (He : r_hiteof r = false) by (destruct (r_hiteof r) eqn:E; [specialize (W4 eq_refl); congruence|reflexivity]).
+    unfold rows_close_with, rows_with, wf_rows, rows_err, lasterr_or. simpl. rewrite He, W1. simpl.
+    repeat split; auto; intros; try congruence.
 Qed.
 
 (* ------------------------------------------------------ iterator -- *)
@@ -252,7 +254,7 @@ Qed.
 (* --------------------------------------------- C14: Next is sticky -- *)
 
 Definition ended (i : iter) : Prop :=
-  it_err i <> None \/ it_rows i = None \/ (exists r, it_rows i = Some r /\ r_closed r = true).
+  it_err i <> None \/ it_rows i = None \/ (exists r, it_rows i = Some r /\ finished_rows r).
 
 Lemma ended_next_false i : wf_iter i -> ended i -> snd (iter_next i) = false /\ ended (fst (iter_next i)).
 Proof.
@@ -262,7 +264,7 @@ Proof.
   destruct En as [En|[En|[r0 [En C]]]]; try congruence. rewrite R in En. inversion En; subst r0.
   unfold wf_iter in W. rewrite R in W. destruct W as [W _].
   destruct (rows_next r) as [r' b] eqn:N. destruct (rows_next_spec _ _ _ W N) as [_ [_ [K _]]].
-  destruct (K C) as [K1 K2]. subst. simpl. split; auto. right. right. exists r. simpl. auto.
+  destruct (K C) as [K1 K2]. subst. simpl. split; auto. right. right. exists r'. simpl. auto.
 Qed.
 
 Lemma next_false_ended i i' : wf_iter i -> iter_next i = (i', false) -> ended i'.
@@ -285,7 +287,7 @@ Proof.
   - destruct (it_rows i) as [r|] eqn:R.
     + right. right. exists (rows_cancel r). simpl. split; auto.
       unfold wf_iter in W. rewrite R in W. destruct W as [W _].
-      apply (rows_cancel_spec r W).
+      left. apply (rows_cancel_spec r W).
     + destruct (it_dead i); simpl; right; left; simpl; rewrite ?R; auto.
 Qed.
 
@@ -309,48 +311,53 @@ Proof.
 Qed.
 
 (* C14: Get before the first Next is an error unless it fetches the Outcome;
-   Get once the iteration has ended is an error. *)
+   Get once the iteration has ended is an error.  (Second part: for drivers
+   with a single result set.  When the driver announces a further result set
+   database/sql keeps the rows open at the end of the first one and Scan hands
+   out the last row again; sqlair does not support multiple result sets.) *)
 Theorem get_guards i a :
   (it_started i = false -> a <> GOutcome -> snd (fst (iter_get i a)) <> None) /\
-  (wf_iter i -> it_started i = true -> ended i -> snd (fst (iter_get i a)) <> None).
+  (wf_iter i -> it_started i = true -> ended i ->
+   (forall r, it_rows i = Some r -> r_more r = false) -> snd (fst (iter_get i a)) <> None).
 Proof.
   split.
   - intros S A. unfold iter_get. destruct (it_err i); [simpl; discriminate|]. rewrite S. simpl.
     destruct a; simpl; try discriminate. congruence.
-  - intros W S En. unfold iter_get. destruct (it_err i) eqn:E; [simpl; discriminate|].
+  - intros W S En Nm. unfold iter_get. destruct (it_err i) eqn:E; [simpl; discriminate|].
     rewrite S. simpl. destruct (it_rows i) as [r|] eqn:R; [|simpl; discriminate].
     destruct En as [En|[En|[r0 [En C]]]]; try congruence. rewrite R in En. inversion En; subst r0.
+    assert (Cl : r_closed r = true).
+    { destruct C as [C|[_ [M _]]]; [exact C|]. rewrite (Nm r eq_refl) in M. discriminate. }
     destruct a; simpl; try discriminate.
-    unfold rows_scan. destruct (r_lasterr r); [simpl; discriminate|]. rewrite C. simpl. discriminate.
+    unfold rows_scan. destruct (r_lasterr r) as [[|e0]|]; rewrite ?Cl; simpl; discriminate.
 Qed.
 
 (* C14: an error recorded by the rows (a failed fetch, a cancelled context, a
    failing driver close) is what Close returns: never nil. *)
 Theorem close_surfaces i r x :
-  wf_iter i -> it_rows i = Some r -> r_lasterr r = Some x ->
+  wf_iter i -> it_rows i = Some r -> recorded r x ->
   snd (iter_close i) = Some x.
 Proof.
-  intros W R L. unfold iter_close. rewrite R. unfold wf_iter in W. rewrite R in W.
-  destruct W as [W [E _]]. destruct (rows_close r) as [r' cerr] eqn:C. rewrite E. simpl.
-  unfold rows_close in C. destruct (rows_close_with_spec _ _ _ _ W C) as [_ [_ [K _]]].
-  unfold rows_err. rewrite (K x L). reflexivity.
+  intros W R [Cl Re]. unfold iter_close. rewrite R. unfold wf_iter in W. rewrite R in W.
+  destruct W as [W [E _]]. unfold rows_close, rows_close_with. rewrite Cl, E. simpl. rewrite Re. reflexivity.
 Qed.
 
-(* a fetch failure, or a cancellation while rows are still to be read, is
-   recorded by the rows *)
+(* a fetch failure is recorded by the rows *)
 Theorem fetch_failure_recorded r r' e :
   wf_rows r -> r_closed r = false -> r_fail r = Some (0, e) -> rows_next r = (r', false) ->
-  r_lasterr r' = Some (ErrDriver e).
+  recorded r' (ErrDriver e).
 Proof.
-  intros W C F H. unfold rows_next in H. rewrite C, F in H. inversion H; subst; clear H.
-  unfold rows_close, rows_close_with, rows_with. simpl. reflexivity.
+  intros [W1 [W2 [W3 W4]]] C F H. unfold rows_next in H.
+  assert (X : r_ctxdone r = false) by (destruct (r_ctxdone r) eqn:X; [specialize (W3 eq_refl); congruence|reflexivity]).
+  rewrite X, C, F in H. inversion H; subst; clear H.
+  unfold recorded, set_hiteof, rows_close, rows_close_with, rows_with, rows_err, lasterr_or. simpl. auto.
 Qed.
 
+(* so is the cancellation of the query's context while the rows are open *)
 Theorem cancel_recorded r :
-  wf_rows r -> r_closed r = false -> r_hit_eof r = false -> r_lasterr (rows_cancel r) = Some ErrCtx.
+  wf_rows r -> r_closed r = false -> recorded (rows_cancel r) ErrCtx.
 Proof.
-  intros [W1 W2] C Eof. unfold rows_cancel, rows_close_with. rewrite C. simpl.
-  destruct (r_lasterr r) eqn:L; [specialize (W2 e eq_refl); congruence|]. rewrite Eof. reflexivity.
+  intros W C. destruct (rows_cancel_spec r W) as [_ [A [_ B]]]. split; auto.
 Qed.
 
 (* ------------------------------------------- C13: Get / GetAll / Run -- *)
@@ -457,14 +464,15 @@ Qed.
    failure ahead, every remaining row converts *)
 Definition reading (r : rows) : Prop :=
   r_closed r = false /\ r_lasterr r = None /\ r_fail r = None /\ r_close_err r = None /\
-  r_driver_closes r = 0 /\ forallb row_ok (r_pending r) = true.
+  r_driver_closes r = 0 /\ forallb row_ok (r_pending r) = true /\ r_more r = false /\
+  r_ctxdone r = false /\ r_hiteof r = false.
 
 Lemma reading_next_some r x rest :
   reading r -> r_pending r = x :: rest ->
   exists r', rows_next r = (r', true) /\ reading r' /\ r_pending r' = rest /\ r_current r' = Some x /\
              row_ok x = true.
 Proof.
-  intros [C [L [Fl [Ce [D Ok]]]]] P. unfold rows_next. rewrite C, Fl, P.
+  intros [C [L [Fl [Ce [D [Ok [Mo [Xd He]]]]]]]] P. unfold rows_next. rewrite Xd, C, Fl, P.
   rewrite P in Ok. simpl in Ok. apply andb_prop in Ok. destruct Ok as [Okx Okr].
   eexists. split; [reflexivity|]. unfold reading, rows_with. simpl. repeat split; auto.
 Qed.
@@ -474,7 +482,7 @@ Lemma reading_next_none r :
   exists r', rows_next r = (r', false) /\ r_closed r' = true /\ r_lasterr r' = None /\
              r_close_err r' = None /\ r_driver_closes r' = 1.
 Proof.
-  intros [C [L [Fl [Ce [D Ok]]]]] P. unfold rows_next. rewrite C, Fl, P.
+  intros [C [L [Fl [Ce [D [Ok [Mo [Xd He]]]]]]]] P. unfold rows_next. rewrite Xd, C, Fl, P, Mo.
   unfold rows_close, rows_close_with, rows_with. simpl. rewrite L, Ce. simpl.
   eexists. split; [reflexivity|]. simpl. repeat split; auto; try (rewrite D; reflexivity).
 Qed.
@@ -578,7 +586,7 @@ Proof.
     unfold rows_err. rewrite L. simpl. auto.
   - destruct (reading_next_some r x rest Rd P) as [r' [N [Rd' [P' [Cu Okx]]]]]. rewrite N. cbn [negb].
     unfold iter_get. cbn [it_err it_with it_started it_rows]. unfold rows_scan.
-    destruct Rd' as [C' [L' [Fl' [Ce' [D' Ok']]]]]. rewrite L', C', Cu, Okx. cbn [negb].
+    destruct Rd' as [C' [L' [Fl' [Ce' [D' [Ok' [Mo' [Xd' He']]]]]]]]. rewrite L', C', Cu, Okx. cbn [negb].
     cbv beta iota. unfold iter_close. cbn [it_rows it_with it_err].
     unfold rows_close, rows_close_with. rewrite C'.
     unfold rows_with, rows_err. cbn [r_lasterr]. rewrite L', Ce'. simpl. destruct (r_hit_eof r'); auto.
